@@ -10,15 +10,15 @@ OP_OWNER = {
     "apply": ["C06"], "fapply": ["C06"], "rownums": ["C06"],
     "eval": ["C07"],
     "new": ["C08"], "select": ["C08"], "drop": ["C08"], "slice": ["C08"], "copy": ["C08"],
-    "equals": ["C09"],
-    "wf": ["C10"],
+    "equals": ["C09"], "rebuild": ["C09"],
+    "wf": ["C10"], "callbacks": ["C10"],
     "sortadv": ["C03"],
     "ryu": ["C16"], "ryudec": ["C16"],
     "csvraw": ["C12"], "csvread": ["C12"],
     "csvfault": ["C15"], "csvreadfault": ["C15"],
 }
 
-BASE = "filter+sort+slice+select+drop+copy+apply+fapply+rownums+eval+distinct+groupagg+groupframes+equals"
+BASE = "filter+sort+slice+select+drop+copy+apply+fapply+rownums+eval+distinct+groupagg+groupframes+equals+rebuild"
 
 
 def mix(*ops, w=3):
@@ -33,7 +33,7 @@ def hist(tag, ops, quick=150, thorough=1500, cover=None):
 
 PROPS = {
     "C01": {"lean": ["QF.Props.C01"],
-            "sections": [dict(hist("hist", ["apply", "sort", "eval"]), cover_ops=None)],
+            "sections": [dict(hist("hist", ["apply", "copy", "rownums", "eval", "sort"], quick=250), cover_ops=None)],
             "rule": "every step of every generated history re-observes all earlier family members (digest of the full observation); "
                     "evaluations = observations compared; non-trivial = successful operation on a result with >= 2 rows; distinct by (operation, result)"},
     "C02": {"lean": ["QF.Props.C02"],
@@ -49,7 +49,8 @@ PROPS = {
     "C08": {"lean": ["QF.Props.C08"],
             "sections": [hist("hist", ["select", "drop", "slice", "copy"], cover=["new", "select", "drop", "slice", "copy"]),
                          {"section": "hist", "tag": "hist-new", "opt": "newonly=1", "quick": 150, "thorough": 1500, "cover_ops": {"new"}}]},
-    "C09": {"lean": ["QF.Props.C06"], "extra_ns": ["QF.Props.C06"], "sections": [hist("hist", ["equals"])]},
+    "C09": {"lean": ["QF.Props.C06"], "extra_ns": ["QF.Props.C06"],
+            "sections": [dict(hist("hist", ["equals", "rebuild", "rebuild", "sort", "sort", "filter", "slice"], quick=250), cover_ops=None)]},
     "C12": {"lean": ["QF.Props.C12"],
             "sections": [{"section": "csvraw", "quick": 300, "thorough": 3000, "cover_ops": {"C"}},
                          {"section": "csvread", "quick": 300, "thorough": 3000, "cover_ops": {"CV"}}],
